@@ -330,7 +330,7 @@ class Check:
                 continue
             n_unknown += 1
             rp = BUILD / "replays" / f"{self.pid}_{i}.json"
-            rp.write_text(json.dumps({"property": self.pid, "key": v["key"], "what": v["what"],
+            rp.write_text(json.dumps({"property": self.pid, "key": v["key"], "what": v["what"], "seed": self.seed, "tier": self.tier,
                                       "replay": v["replay"], "broken": self.broken}, indent=1, default=str))
             lines.append(f"VIOLATION property={self.pid} replay={rp}")
         if self.broken and n_unknown == 0:
